@@ -67,6 +67,8 @@ class Cov(np.ndarray):
     def copy(self, frame=None):
         """"""
         new = self.__class__(self.orb, self.base, frame=self.frame)
+        # The local orbital frames of the copy are the ones of the original
+        new._orb_frame = self._orb_frame
         if frame is not None:
             new.frame = frame
         return new
